@@ -36,7 +36,7 @@ class P(Profile):
     n_max = 4
     apps_max = 1
     progs_max = 2
-    fault_ops = ('crash', 'restart', 'restart', 'cut', 'isolate', 'heal', 'heal_all', 'boot')
+    fault_ops = ('crash', 'restart', 'restart', 'cut', 'mute', 'mute', 'isolate', 'heal', 'heal_all', 'boot')
     proc_ops = ('direct_start', 'direct_start', 'direct_stop')
     user_ops = ()
     op_rate = 0.25
@@ -59,6 +59,10 @@ class DetectionMonitor(Monitor):
         self.due = {}           # (X idx, X inc, P ident) -> local tick at which P had to be non active; checks pending
         self.last_tick = {}     # X idx -> ticks_sent seen
         self.flags = set()
+        from supvisors.ttypes import SUPVISORS_PUBLICATION, PublicationHeaders
+        self.publication_type = SUPVISORS_PUBLICATION
+        self.tick_code = PublicationHeaders.TICK.value
+        self.pending_fail = {}  # key -> time of the first failed call made while the peer was RUNNING
         self.tracker = None
 
     def attach(self, runner):
@@ -77,12 +81,15 @@ class DetectionMonitor(Monitor):
         if dst is None:
             return
         if outcome == 'oserror' and src is not dst:
-            self.failed_calls[self._key(src, dst.identifier)] = src.world.now
+            key = self._key(src, dst.identifier)
+            self.failed_calls[key] = src.world.now
+            if self.state.get(key) == 'RUNNING' and key not in self.pending_fail:
+                self.pending_fail[key] = src.world.now
             return
         if name == 'supervisor.sendRemoteCommEvent' and outcome == 'ok' and src is not dst \
-                and args[0] == 'Supvisors_publication':
+                and args[0] == self.publication_type:
             origin, (ptype, body) = json.loads(args[1])
-            if ptype == 0:   # TICK
+            if ptype == self.tick_code:
                 local = dst.supvisors.context.local_status.state.name
                 if local in ('CHECKED', 'RUNNING'):
                     self.rx[self._key(dst, src.identifier)] = self._counter(dst)
@@ -93,6 +100,17 @@ class DetectionMonitor(Monitor):
         new = new_state.name
         self.state[key] = new
         w = inst.world
+        if new != 'RUNNING':
+            self.pending_fail.pop(key, None)
+        if prev == 'FAILED' and new == 'STOPPED' and self.auto_fence and identifier != inst.identifier:
+            sm = inst.supvisors.state_modes
+            master = sm.master_identifier
+            mstate = sm.master_state.name if sm.master_state is not None else None
+            if master and master != identifier and mstate in ('DISTRIBUTION', 'OPERATION', 'CONCILIATION'):
+                self.findings.append(('fencing:not-ISOLATED-with-auto_fence',
+                                      f't={w.now} {inst.nick} set silent {identifier} to STOPPED although auto_fence is '
+                                      f'on and its Master {master} is in {mstate}'))
+            self.flags.add('auto-fence-decision')
         if new not in GOLDEN.get(prev, set()):
             self.findings.append((f'instance-graph:{prev}->{new}', f't={w.now} {inst.nick} moved {identifier} {prev} -> {new}'))
         if identifier == inst.identifier and new == 'ISOLATED':
@@ -129,6 +147,12 @@ class DetectionMonitor(Monitor):
         n = self._counter(inst)
         w = inst.world
         master = inst.supvisors.state_modes.master_identifier
+        for key, t_f in list(self.pending_fail.items()):
+            if key[0] == inst.idx and key[1] == inst.incarnation and w.now - t_f > 10.0:
+                del self.pending_fail[key]
+                self.findings.append(('completeness:failed-call-not-followed-by-FAILED',
+                                      f't={w.now} {inst.nick}: a call to {key[2]} failed at t={t_f} while it was RUNNING; it '
+                                      f'has not left RUNNING since'))
         for ident, status in ctx.instances.items():
             if ident == inst.identifier:
                 continue
